@@ -81,6 +81,7 @@ type SpecFunc struct {
 	File    string
 	Pkg     string
 	Generic bool
+	Macro   bool
 }
 
 type Axiom struct {
@@ -104,7 +105,7 @@ type ContractFile struct {
 	AbsFields []AbsField
 }
 
-var keywordRe = regexp.MustCompile(`^(spec|axiom|lemma|pure|func|interface|lib|arith|requires|ensures|modifies|decreases|loop|at|ghost|inline|assume|safety|use|const|sort|trusted|opt|absfield)\b`)
+var keywordRe = regexp.MustCompile(`^(spec|macro|axiom|lemma|pure|func|interface|lib|arith|requires|ensures|modifies|decreases|loop|at|ghost|inline|assume|safety|use|const|sort|trusted|opt|absfield)\b`)
 
 // AbsField declares an abstract (ghost) field of a named type, e.g. the content of a library map.
 type AbsField struct {
@@ -245,14 +246,14 @@ func ParseContractFile(path, pkg string) (*ContractFile, error) {
 			}
 			cf.AbsFields = append(cf.AbsFields, AbsField{Type: f[0], Name: f[1], FType: strings.Join(f[2:], " ")})
 			cur = nil
-		case "spec":
-			// spec name(params) type [= expr]
+		case "spec", "macro":
+			// spec name(params) type [= expr]; a macro is expanded in the caller's state (it may read the heap)
 			i := strings.Index(rest, "(")
 			j := matchParen(rest, i)
 			if i < 0 || j < 0 {
 				return nil, fail("bad spec header")
 			}
-			sf := &SpecFunc{Name: strings.TrimSpace(rest[:i]), Params: parseParams(rest[i+1 : j]), File: path, Pkg: pkg}
+			sf := &SpecFunc{Name: strings.TrimSpace(rest[:i]), Params: parseParams(rest[i+1 : j]), File: path, Pkg: pkg, Macro: kw == "macro"}
 			tail := strings.TrimSpace(rest[j+1:])
 			if k := strings.Index(tail, "="); k >= 0 && !strings.HasPrefix(tail[k:], "==") {
 				sf.Result = strings.TrimSpace(tail[:k])
